@@ -369,7 +369,7 @@ func init() {
 	Register(&Engine{
 		ID:       "C05",
 		Anchors:  []string{"tree.go:Handler", "syntax.go:Interceptors.Split", "syntax.go:splitString", "segment.go:Interceptors.NewSegment", "match.go:Hosts.Match", "match.go:validOptionalPort", "match.go:pathVersion.Match", "match.go:headerVersion.Match", "mux.go:CheckSyntax", "mux.go:URL", "group.go:ServeHTTP"},
-		Cases:    func(t string) int { return map[string]int{"quick": 1200, "thorough": 40000}[t] },
+		Cases:    func(t string) int { return map[string]int{"quick": 3000, "thorough": 100000}[t] },
 		Run:      runC05,
 		Directed: c05Directed,
 		Rule: "case = router reached by a random Handle/Remove/Clean history, then 40 requests with arbitrary method/path/host/header bytes (\"\", \"*\", no leading slash, 70 kB, non-UTF-8), 25 requests through a Group with Hosts/version/And/Or matchers and the matchers alone, 30 hostile pattern strings through CheckSyntax, URL, Router.URL and Handle (fresh and populated router); " +
